@@ -1,6 +1,7 @@
 package main
 
 import (
+	"encoding/json"
 	"fmt"
 	"os"
 	"strings"
@@ -213,6 +214,71 @@ func init() {
 			for _, v := range res.Viol {
 				fmt.Println("  VIOL", v)
 			}
+		}
+	}
+}
+
+func init() {
+	debugCmds["bisect"] = func(args []string) {
+		b, _ := os.ReadFile(args[0])
+		var w struct {
+			Witness struct {
+				Cfg vg.HistCfg `json:"cfg"`
+			} `json:"witness"`
+		}
+		json.Unmarshal(b, &w)
+		cfg := w.Witness.Cfg
+		max := cfg.Steps
+		for n := 0; n <= max; n++ {
+			cfg.Steps = n
+			res := vg.RunHistory(cfg)
+			var sigs []string
+			for _, v := range res.Viol {
+				sigs = append(sigs, v.Prop+"/"+v.Sig)
+			}
+			last := ""
+			if len(res.Steps) > 1 {
+				last = res.Steps[len(res.Steps)-2]
+			}
+			fmt.Println(n, sigs, "|", last)
+		}
+	}
+}
+
+func init() {
+	debugCmds["runcfg"] = func(args []string) {
+		b, _ := os.ReadFile(args[0])
+		var w struct {
+			Witness struct {
+				Cfg vg.HistCfg `json:"cfg"`
+			} `json:"witness"`
+		}
+		json.Unmarshal(b, &w)
+		cfg := w.Witness.Cfg
+		if len(args) > 1 {
+			fmt.Sscan(args[1], &cfg.Steps)
+		}
+		cfg.Trace = true
+		res := vg.RunHistory(cfg)
+		for _, s := range res.Steps {
+			fmt.Println("  ", s)
+		}
+		for _, s := range res.BusLog {
+			fmt.Println("  BUS", s)
+		}
+		for c, fs := range res.Frames {
+			for _, f := range fs {
+				fmt.Println("  FRAME", c, f)
+			}
+		}
+		for _, s := range res.ErrLog {
+			fmt.Println("  ERRLOG", s)
+		}
+		for _, n := range res.Notes {
+			fmt.Println("  NOTE", n.Site, n.Detail)
+		}
+		for _, v := range res.Viol {
+			fmt.Println("  VIOL", v)
 		}
 	}
 }
